@@ -113,6 +113,9 @@ func ExpectExif(r *gen.Record) map[string]Want {
 	}
 	str("Exif.Make", r.Make)
 	str("Exif.Model", r.Model)
+	if r.KnownModel != 0 {
+		w["Exif.CameraModel"] = Want{Exact: fmt.Sprint(r.KnownModel)}
+	}
 	str("Exif.Artist", r.Artist)
 	str("Exif.Copyright", r.Copyright)
 	str("Exif.Software", r.Software)
@@ -223,7 +226,12 @@ func ExpectExif(r *gen.Record) map[string]Want {
 		fmt.Sscanf(*r.GPSDate, "%d:%d:%d", &y, &mo, &d)
 		t := time.Date(y, time.Month(mo), d, 0, 0, 0, 0, time.UTC)
 		if r.GPSTime != nil {
-			secs := r.GPSTime[0].N/r.GPSTime[0].D*3600 + r.GPSTime[1].N/r.GPSTime[1].D*60 + r.GPSTime[2].N/r.GPSTime[2].D
+			// hours, minutes and seconds are rationals: the time is their exact sum, reported in
+			// whole seconds
+			g := r.GPSTime
+			den := uint64(g[0].D) * uint64(g[1].D) * uint64(g[2].D)
+			num := uint64(g[0].N)*3600*uint64(g[1].D)*uint64(g[2].D) + uint64(g[1].N)*60*uint64(g[0].D)*uint64(g[2].D) + uint64(g[2].N)*uint64(g[0].D)*uint64(g[1].D)
+			secs := num / den
 			t = t.Add(time.Duration(secs) * time.Second)
 		}
 		w["Exif.GPS.Date()"] = Want{Exact: canonTime(t)}
